@@ -20,10 +20,17 @@ RULE = ("histories write(A); write(B, overwrite=o1); write(C, overwrite=o2) (len
         "differ x store kind {MemoryStore, LocalStore, Path, str} x pre-state {absent, sibling group + foreign attrs} x zarr format; "
         "entry points write_arrays (tied to the Coq model step by step) and geff.write for networkx and rustworkx over every store kind x pre-state x format (oracle only: refusal, complete replacement, foreign members kept); a block of "
         "format-changing overwrites (oracle only); after each call: exception class, key->bytes snapshot, abstract dump, read-back; "
-        "non-trivial = at least one call hits an existing geff; distinct by structural input")
+        "non-trivial = at least one call hits an existing geff; distinct by structural input; "
+        "entry-point histories (harness/c06_entries.py, tied to Entry.v): on one directory (or MemoryStore) the entry points take turns -- "
+        "from_ctc_to_geff and from_trackmate_xml_to_geff through API and CLI (label volume outside / inside the geff directory), write_dicts and "
+        "the Nx/Rx/Sg backend writers called directly, geff.write for networkx and spatial-graph, write_arrays; fixed blocks per zarr format "
+        "(fresh/refused/overwritten, geff beside foreign members then every entry point by path, store kinds) + random mixed histories")
 EXHAUSTIVE_BLOCKS = ["store kind x zarr format x (o1, o2) in {F,T}^2 for one fixed triple of graphs"]
 ASSUMPTIONS = ["equality after an overwrite is on the decoded hierarchy (abstract dump) and the read-back graph, not on bytes",
-               "the Coq model has one zarr format per history; format-changing overwrites are checked by the oracle only"]
+               "the Coq model has one zarr format per history; format-changing overwrites are checked by the oracle only",
+               "entry-point histories: trees are compared with the opaque metadata tokens (axis type/unit, version, related objects, extra) blanked; "
+               "the spatial-graph writer is modelled behind write_props_arrays' in-place unsquish of the position column; the label volume inside "
+               "the geff directory is generated at depth 1 (out.geff/seg) only; one compiled spatial_graph signature"]
 
 
 def three_graphs(rng):
@@ -96,6 +103,15 @@ def generate(rng: random.Random, tier: str):
         yield {"kind": "history", "store": rng.choice(["mem", "local", "path", "str"]), "fmt": [fmt, fmt, fmt],
                "pre": rng.choice(["fresh", "foreign"]), "entry": rng.choice(["nx", "rx"]),
                "calls": [nx_graph(rng, False), nx_graph(rng, rng.random() < 0.5), nx_graph(rng, rng.random() < 0.5)]}
+    # every other writing entry point (converters with their label volume, write_dicts and the backend writers called directly,
+    # the spatial-graph writer): harness/c06_entries.py, tied to Entry.v
+    yield from generate_entries(rng, tier)
+
+
+def generate_entries(rng, tier):
+    from harness import c06_entries
+
+    yield from c06_entries.generate(rng, tier)
 
 
 def nx_graph(rng, ov):
@@ -230,6 +246,10 @@ def open_target(c):
 def run_impl(c):
     from geff.core_io import read_to_memory
 
+    if c["kind"] == "ehist":
+        from harness import c06_entries
+
+        return c06_entries.run_impl(c)
     it = Interner()
     old_home = os.environ.get("HOME")
     store, real, path = open_target(c)
@@ -347,6 +367,10 @@ def coq_case(c, o):
 
 
 def oracle(c, o):
+    if c["kind"] == "ehist":
+        from harness import c06_entries
+
+        return c06_entries.oracle(c, o)
     fmt_change = len(set(c["fmt"])) > 1
     for i, (call, st) in enumerate(zip(c["calls"], o["steps"])):
         tags = {"step": i, "store": "object" if c["store"] in ("mem", "local") else (c["store"] if c["store"] in ("tilde", "mixed") else "path"), "pre": c["pre"], "entry": c["entry"], "fmt_change": fmt_change}
@@ -402,5 +426,9 @@ def nontrivial(c, o):
 
 
 def describe(c, o):
+    if c["kind"] == "ehist":
+        from harness import c06_entries
+
+        return c06_entries.describe(c, o)
     return (f"{c['entry']}:{c['store']}:v{'>'.join(map(str, c['fmt']))}:{c['pre']}:" +
             ",".join(("ov" if call["ov"] else "no") + "=" + (s["res"][0] if s["res"][0] == "ok" else s["res"][1]) for call, s in zip(c["calls"], o["steps"])))
